@@ -235,15 +235,21 @@ def check(tier):
     for key, text in list(repo_races.items())[:2]:
         rep.failure("race", {"race"}, {"owners": key, "report": text, "texts": SPECS,
                                        "model": "Emerge/Shared.v shared_hasher_refuted: schedule [1;1;2;2;1] of Reset/Write/Sum64 returns the other goroutine's hash"})
-    if dep_races or (conc and (conc.get("differing") or conc.get("outcome") != "ok")):
+    conc_bad = bool(conc and (conc.get("differing") or conc.get("outcome") != "ok"))
+    if dep_races or conc_bad:
         sample = next(iter(dep_races.values()), "")
         diff = ""
         if conc and conc.get("concurrent"):
             diff = conc["concurrent"][0][:1500]
-        own_panic = bool(diff) and "moorara/algo" not in diff and "panic" in diff
-        if own_panic:
-            rep.failure("concurrent-result", {"concurrent-result"}, {"texts": SPECS, "result": diff})
-        else:
+        elif conc_bad:
+            diff = json.dumps(conc)[:1500]
+        # Who is to blame for a wrong or panicking concurrent result is decided by the race detector, not by where the panic
+        # surfaces: corrupted state of the dependency's shared hashers (D20) can make any later frame fail, also one of /repo.
+        # /repo is blamed when it owns unsynchronised state itself, or when nothing of the dependency raced.
+        if conc_bad and (repo_races or not dep_races):
+            rep.failure("concurrent-result", {"concurrent-result"}, {"texts": SPECS, "result": diff,
+                        "races_owned_by_repo": sorted(repo_races)[:6], "races_owned_by_dependency": sorted(dep_races)[:6]})
+        if dep_races:
             rep.failure("dependency-shared-hashers", {"dependency-shared-hashers"},
                         {"texts": SPECS, "owners": sorted(dep_races)[:6], "report": sample, "concurrent_result": diff})
 
